@@ -1215,6 +1215,19 @@ func genConfig(repo string) *leanFile {
 
 func genPlugin(repo string) *leanFile {
 	l := &leanFile{name: "Plugin"}
+	// plugin.go NewPREF64: is the scaled lifetime computed on the duration (3 * maxInterval) rather
+	// than on its whole seconds (int(maxInterval.Seconds()) * 3)
+	if pf := load(repo, "internal/plugin/plugin.go"); pf != nil {
+		if fd := pf.fn("NewPREF64"); fd != nil {
+			var b strings.Builder
+			printer.Fprint(&b, fset, fd.Body)
+			body := strings.ReplaceAll(b.String(), " ", "")
+			l.Bool("pref64ScalesDuration", strings.Contains(body, "3*maxInterval") && !strings.Contains(body, "maxInterval.Seconds()"),
+				"NewPREF64 scales the duration (3 * maxInterval), not its whole seconds")
+		} else {
+			failf("plugin.go: NewPREF64 not found")
+		}
+	}
 	// plugin.go (*LLA).Apply: is the option only appended for a 48-bit hardware address
 	if pf := load(repo, "internal/plugin/plugin.go"); pf != nil {
 		if fd := pf.fn("LLA.Apply"); fd != nil {
